@@ -46,6 +46,9 @@ needs = ""
 rp = os.path.join(src, "README.md")
 if os.path.exists(rp):
     shutil.copy(rp, os.path.join(d, "README.md"))
+for fn in os.listdir(src):
+    if fn.startswith("demo_") and fn != "demo_test.go":
+        shutil.copy(os.path.join(src, fn), d)
 meta = {"id": sid, "property": prop, "demo_package_dir": demopkg, "existing_tests_run": pkgs,
         "needs_to_manifest": "see README.md", "confirmed": log, "confirmed_at_repo_head": subprocess.run(["git", "-C", "/repo", "rev-parse", "HEAD"], capture_output=True, text=True).stdout.strip(),
         "detected_by": []}
